@@ -184,8 +184,9 @@ def seg_width(text):
     return sum(G.char_width(c) for c in text)
 
 
-def split_rows_at(rows, k):
+def split_rows_at(rows, k, enc="utf-8"):
     """split every row at column k; None if k is inside a wide character somewhere"""
+    narrow = enc_mode(enc) != "utf8"
     left, right = [], []
     for segs in rows:
         l, r = [], []
@@ -193,7 +194,7 @@ def split_rows_at(rows, k):
         for text, a in segs:
             lt, rt = "", ""
             for ch in text:
-                cw = G.char_width(ch)
+                cw = 1 if narrow else G.char_width(ch)
                 if col + cw <= k and not rt:
                     lt += ch
                 elif col < k:
@@ -210,6 +211,12 @@ def split_rows_at(rows, k):
     return left, right
 
 
+def _cur_enc():
+    from urwid.util import get_encoding
+
+    return get_encoding()
+
+
 def build_text_frame(fr):
     import urwid
 
@@ -222,9 +229,9 @@ def build_text_frame(fr):
         return text_canvas(rows, w, cur)
     if kind == "composite":
         c = urwid.CompositeCanvas(text_canvas(rows, w))
-    elif kind == "join" and 0 < wrap[1] < w and split_rows_at(rows, wrap[1]):
+    elif kind == "join" and 0 < wrap[1] < w and split_rows_at(rows, wrap[1], _cur_enc()):
         k = wrap[1]
-        l, r = split_rows_at(rows, k)
+        l, r = split_rows_at(rows, k, _cur_enc())
         c = urwid.CanvasJoin([(text_canvas(l, k), None, False, k), (text_canvas(r, w - k), None, True, w - k)])
     elif kind == "combine" and 0 < wrap[1] < len(rows):
         k = wrap[1]
@@ -330,10 +337,15 @@ class Expect:
         self.content = content
         self.items = items
         self.cells = []  # [y][x] = (ch, Style, widepart, attr)
+        self.has_c0 = False
         style_cache = {}
         for irow in items:
             row = []
             for b, w, a, cs in irow:
+                if w == 0 and len(b) == 1 and (b[0] < 0x20 or b[0] == 0x7F):
+                    # a C0 control inside canvas text occupies no column in the canvas: nothing is expected on the glass
+                    self.has_c0 = True
+                    continue
                 if w == 0:
                     if row:
                         x = len(row) - 1
@@ -418,11 +430,6 @@ def row_shape(exp: Expect, y, cfg):
         return x, 1
 
     zs, zw = unit(n - 1)
-    z = row[zs]
-    if z[0] == " ":
-        st = z[1]
-        deco = "+".join(f for f in ("underline", "standout", "strikethrough") if getattr(st, f)) or ("bg" if st.bg is not None else "plain")
-        return f"tail=blank({deco})"
     ztag = f"Z{zw}"
     if zs == 0:
         return f"tail={ztag}-sole"
@@ -473,6 +480,7 @@ class Session:
         self.last_canvas = None
         self.last_frame = None
         self.pending_full = True  # next draw must be a complete repaint (start / clear / resize)
+        self.scroll_seen = 0
         self.started = False
 
     def start(self, size):
@@ -561,7 +569,7 @@ class Session:
             self.scr.draw_screen(size, canvas)
         except Exception as e:  # noqa: BLE001
             raise Found(
-                f"C04|raw|draw_screen|raise:{type(e).__name__}|last-row:{shape}|cols={'2' if size[0] == 2 else 'n'}",
+                f"C04|raw|draw_screen|raise:{type(e).__name__}|last-row:{shape}",
                 f"{type(e).__name__}: {e}\n{traceback.format_exc(limit=5)}",
             ) from e
         data = self.feed()
@@ -578,6 +586,8 @@ class Session:
         self.observe_paths(exp, old_exp, data)
         self.pending_full = False
         self.compare(exp, "draw")
+        if exp.has_c0:
+            self.count("frames_with_c0_control")
         return True
 
     def observe_paths(self, exp, old_exp, data):
@@ -597,44 +607,57 @@ class Session:
 
     # ---- comparison
     def compare(self, exp: Expect, phase):
+        try:
+            self._compare(exp, phase)
+        except Found as f:
+            if exp.has_c0:
+                raise Found("C04|raw|c0-control-in-canvas-text|painted-as-?-in-a-column-the-canvas-does-not-have", f.msg) from f
+            raise
+
+    def _compare(self, exp: Expect, phase):
         vt = self.vt
         bib = self.bib
         cfg = self.cfg
         n = 0
         if (vt.cols, vt.rows) != (exp.cols, exp.rows):
             raise RuntimeError("harness: VT size out of step")
+        if vt.scroll_count != self.scroll_seen:
+            k = vt.scroll_count - self.scroll_seen
+            self.scroll_seen = vt.scroll_count
+            raise Found(f"C04|raw|scrolled|last-row:{row_shape(exp, exp.rows - 1, cfg)}", f"screen scrolled {k} line(s) during {phase}\n{self.describe(exp)}")
+        # pass 1: every cell painted, glyphs (incl. wide-character halves) in place
         for y in range(exp.rows):
             vrow = vt.cells[y]
+            erow = exp.cells[y]
             for x in range(exp.cols):
                 c = vrow[x]
-                e = exp.cells[y][x]
+                e = erow[x]
                 n += 1
                 if c.garbage:
                     raise Found(
                         f"C04|raw|{phase}|cell-never-painted|{self.where(exp, x, y)}",
                         f"cell ({x},{y}) was not painted by a repaint that had to be complete\n{self.describe(exp)}",
                     )
-                if c.wide != e[2]:
+                if c.wide != e[2] or (c.wide != 2 and c.ch != e[0]):
                     raise Found(
-                        f"C04|raw|{phase}|glyph|{self.where(exp, x, y)}|{row_shape(exp, y, cfg)}",
-                        f"cell ({x},{y}): terminal has {c.ch!r} (wide-part {c.wide}), canvas has {e[0]!r} (wide-part {e[2]})\n{self.describe(exp)}",
+                        f"C04|raw|glyph|{'last-row' if y == exp.rows - 1 else self.where(exp, x, y)}|{row_shape(exp, y, cfg)}",
+                        f"cell ({x},{y}): terminal shows {c.ch!r} (wide-part {c.wide}), canvas has {e[0]!r} (wide-part {e[2]})\n{self.describe(exp)}",
                     )
-                if c.wide == 2:
+        # pass 2: colours and style flags
+        for y in range(exp.rows):
+            vrow = vt.cells[y]
+            erow = exp.cells[y]
+            for x in range(exp.cols):
+                c = vrow[x]
+                if c.wide == 2 and False:
                     continue
-                a = vt_vis(c, bib)
-                b = exp.vis(y, x)
+                e = erow[x]
+                a = vt_vis(c, bib) if c.wide != 2 else vt_vis(c._replace(ch=vrow[x - 1].ch), bib)
+                b = exp.vis(y, x) if c.wide != 2 else exp.vis(y, x - 1)
                 if a != b:
-                    d = S.diff_fields(a, b)
-                    if "glyph" in d:
-                        raise Found(
-                            f"C04|raw|{phase}|glyph|{self.where(exp, x, y)}|{row_shape(exp, y, cfg)}",
-                            f"cell ({x},{y}): terminal shows {c.ch!r}, canvas has {e[0]!r}\n{self.describe(exp)}",
-                        )
-                    blank = "blank" if e[0] == " " else "char"
-                    raise Found(
-                        f"C04|raw|{phase}|style:{'+'.join(d)}|{blank}-cell|attr={attr_kind(e[3], self.pal)}|{self.where(exp, x, y)}|{row_shape(exp, y, cfg) if blank == 'blank' else ''}",
-                        f"cell ({x},{y}) {e[0]!r} attr {e[3]!r}: terminal {a} != expected {b} (depth {self.colors}, style {e[1]})\n{self.describe(exp)}",
-                    )
+                    raise Found(self.style_sig(exp, x, y, a, b, phase), (
+                        f"cell ({x},{y}) {e[0]!r} attr {e[3]!r}: terminal {a} != expected {b} (depth {self.colors}, style {e[1]})\n{self.describe(exp)}"
+                    ))
         self.count("cells_compared", n)
         self.count("cursor_checks")
         if exp.cursor is None:
@@ -649,15 +672,41 @@ class Session:
                     f"C04|raw|{phase}|cursor|wrong-position", f"terminal cursor {vt.cursor}, canvas cursor {exp.cursor}\n{self.describe(exp)}"
                 )
             self.count("cursor_shown_ok")
-        if vt.scroll_count:
-            raise Found(f"C04|raw|{phase}|scrolled|last-row:{row_shape(exp, exp.rows - 1, cfg)}", f"screen scrolled {vt.scroll_count} line(s)\n{self.describe(exp)}")
         if vt.insert_mode:
             raise Found(f"C04|raw|{phase}|insert-mode-left-on", self.describe(exp))
         if not vt.alt_screen:
             raise Found(f"C04|raw|{phase}|left-alternate-screen", self.describe(exp))
 
     def where(self, exp, x, y):
-        return ("last-row" if y == exp.rows - 1 else "row") + "," + ("last-col" if x == exp.cols - 1 else ("last-but-one-col" if x == exp.cols - 2 else "col"))
+        """row class + whether the cell belongs to the last two characters of the row"""
+        row = exp.cells[y]
+        n = len(row)
+        zs = n - 2 if row[n - 1][2] == 2 else n - 1
+        ys = zs
+        if zs > 0:
+            ys = zs - 2 if row[zs - 1][2] == 2 else zs - 1
+        return ("last-row" if y == exp.rows - 1 else "row") + "," + ("tail-chars" if x >= ys else "body")
+
+    def style_sig(self, exp, x, y, a, b, phase):
+        e = exp.cells[y][x]
+        kind = attr_kind(e[3], self.pal)
+        if kind == "name" and self.pal.entries[e[3]][0] != e[3]:
+            kind = "alias"
+        d = S.diff_fields(a, b)
+        dflt = S.visible(e[0], None, None, False, False, False, False, False, False, self.bib)
+        if kind == "alias" and a == dflt:
+            return f"C04|raw|style|attr=alias|painted-with-default-style"
+        row = exp.cells[y]
+        t = len(row)
+        while t > 0 and row[t - 1][0] == " " and row[t - 1][3] == row[-1][3]:
+            t -= 1
+        if e[0] == " ":
+            cell = "trailing-blank" if x >= t else "blank"
+        else:
+            cell = "char"
+        if cell == "trailing-blank":
+            return f"C04|raw|style|trailing-blank-cell|lost:{'+'.join(d)}"
+        return f"C04|raw|style|{cell}-cell|attr={kind}|differs:{'+'.join(d)}"
 
     def describe(self, exp):
         out = [f"cfg={self.cfg}", "terminal:"]
@@ -678,9 +727,9 @@ class Session:
 
     def final_equivalence(self):
         """incremental history == clear() + one full repaint of the last canvas"""
-        if self.last_frame is None:
+        if self.last_frame is None or frame_size(self.last_frame) != self.size:
             return
-        s1 = self.snapshot()
+        s1 = None if self.pending_full else self.snapshot()
         self.scr.clear()
         self.vt.fill_garbage()
         self.pending_full = True
@@ -695,21 +744,36 @@ class Session:
         self.compare(exp, "full-repaint")
         s2 = self.snapshot()
         self.count("repaint_equivalence_checks")
-        if s1 != s2:
+        if s1 is not None and s1 != s2:
             raise Found("C04|raw|history-differs-from-full-repaint", f"incremental {s1}\nfull {s2}")
 
 
 def run_raw(ctx, case, count=True):
-    """execute one history; returns (sig, msg) of the first failure or None"""
+    """execute one history.  Returns ([(sig, msg), ...] one per distinct signature, in order of appearance; frames drawn).
+    After a failed comparison the history goes on from a forced full repaint (clear() + VT refilled with GARBAGE), so that
+    a frequent finding on one frame does not hide the frames after it."""
     sess = None
     drawn = 0
+    found: list = []
+
+    def step(fn, *a, **kw):
+        try:
+            return fn(*a, **kw)
+        except Found as f:
+            if all(f.sig != s for s, _ in found):
+                found.append((f.sig, f.msg))
+            if sess.vt is not None and sess.started:
+                sess.scr.clear()
+                sess.vt.fill_garbage()
+                sess.pending_full = True
+            return False
+
     try:
         sess = Session(ctx, case["cfg"], case["palette"], count)
-        same_canvas = None
         for op in case["ops"]:
             k = op[0]
             if k == "draw":
-                if sess.draw(op[1]):
+                if step(sess.draw, op[1]):
                     drawn += 1
             elif sess.size is None or sess.last_frame is None:
                 continue
@@ -717,22 +781,758 @@ def run_raw(ctx, case, count=True):
                 sess.op_clear()
             elif k == "winch":
                 sess.op_winch()
-            elif k == "again":  # the very same canvas object: draw_screen returns early
-                if not sess.pending_full:
-                    sess.draw(sess.last_frame, canvas=sess.last_canvas, tag="same_object")
-                else:
-                    sess.draw(sess.last_frame, tag="equal")
-            elif k == "equal":  # an equal canvas in a new object: every row is skipped
-                sess.draw(sess.last_frame, tag="equal")
+            elif k == "again" and not sess.pending_full:  # the very same canvas object: draw_screen returns early
+                step(sess.draw, sess.last_frame, canvas=sess.last_canvas, tag="same_object")
+            elif k in ("equal", "again"):  # an equal canvas in a new object: every row is skipped
+                step(sess.draw, sess.last_frame, tag="equal")
         if drawn:
-            sess.final_equivalence()
-        same_canvas = None  # noqa: F841
-    except Found as f:
-        return (f.sig, f.msg), drawn
+            step(sess.final_equivalence)
     finally:
         if sess is not None:
             try:
                 sess.close()
             except Exception:  # noqa: BLE001
                 pass
-    return None, drawn
+    return found, drawn
+
+
+# ------------------------------------------------------------------------------------------------
+# HTML clause
+# ------------------------------------------------------------------------------------------------
+
+_SPAN = re.compile(r'<span style="color:(#[0-9a-f]{6});background:(#[0-9a-f]{6})([^"]*)">([^<]*)</span>')
+
+
+def run_html(ctx, cfg, palette, frame, count=True):
+    """HtmlGenerator.draw_screen on one frame; returns (sig, msg) or None"""
+    import urwid
+    from urwid.display import html_fragment as H
+
+    cnt = (lambda k, n=1: ctx.count(k, n)) if count else (lambda k, n=1: None)
+    enc = cfg["enc"]
+    old = urwid.util.get_encoding()
+    urwid.set_encoding(enc)
+    saved = H.HtmlGenerator.fragments
+    H.HtmlGenerator.fragments = []
+    try:
+        pal = S.Palette(palette)
+        try:
+            canvas = build_frame(frame)
+            size = frame_size(frame)
+            exp = Expect(canvas, size, enc, pal, 16, False)
+        except Invalid:
+            return None
+        except Exception:  # noqa: BLE001
+            return None
+        kinds = sorted({attr_kind(c[3], pal) for row in exp.cells for c in row})
+        has_dec = any(cs == "0" for row in exp.items for (_b, _w, _a, cs) in row)
+        gen = H.HtmlGenerator()
+        try:
+            gen.set_terminal_properties(colors=cfg["colors"])
+            gen.register_palette([tuple(mk_attr(x) if i == 0 and isinstance(x, list) else x for i, x in enumerate(e)) for e in palette])
+            gen.draw_screen(size, canvas)
+        except Exception as e:  # noqa: BLE001
+            why = "other"
+            if isinstance(e, KeyError) and e.args and e.args[0] == TRUE and cfg["colors"] == TRUE:
+                why = "colors=2**24"
+            elif isinstance(e, KeyError) and e.args and "undefined" in kinds and not pal.defined(e.args[0]):
+                why = "undefined-attr"
+            return (
+                f"C04|html|draw_screen|raise:{type(e).__name__}|{why}",
+                f"{type(e).__name__}: {e}\n{traceback.format_exc(limit=4)}",
+            )
+        cnt("html_frames")
+        frag = H.HtmlGenerator.fragments[-1]
+        if not (frag.startswith("<pre>") and frag.endswith("</pre>")):
+            return ("C04|html|structure|no-pre-wrapper", frag[:200])
+        body = frag[5:-6]
+        lines = body.split("\n")
+        if lines and lines[-1] == "":
+            lines.pop()
+        if len(lines) != exp.rows:
+            return ("C04|html|rows|count-differs", f"{len(lines)} html rows for {exp.rows} canvas rows\n{frag[:400]}")
+        highlighted = []
+        for y, line in enumerate(lines):
+            want = "".join(c[0] for c in exp.cells[y])
+            got = _html.unescape(re.sub(r"<[^>]*>", "", line))
+            if exp_has_c0_row(exp, y):
+                cnt("html_rows_not_judged_c0_control")
+                if got != want:
+                    return None
+                continue
+            cnt("html_rows_compared")
+            if got != want:
+                tag = "dec-glyph-row" if any(cs == "0" for (_b, _w, _a, cs) in exp.items[y]) else "plain-row"
+                return (f"C04|html|text-differs|{tag}", f"row {y}: html {got!r} != canvas {want!r}")
+            # structure: spans against canvas runs
+            spans = _SPAN.findall(line)
+            if "".join(f'<span style="color:{a};background:{b}{c}">{d}</span>' for a, b, c, d in spans) != line:
+                return ("C04|html|structure|unparsed-markup", line[:300])
+            runs = [glyph_run(seg, enc) for seg in exp.content[y]]
+            runs = [r for r in runs if r]
+            i = 0
+            col = 0
+            for t in runs:
+                if i < len(spans) and _html.unescape(spans[i][3]) == t:
+                    i += 1
+                elif i + 2 < len(spans) and "".join(_html.unescape(s[3]) for s in spans[i : i + 3]) == t:
+                    pre, mid, post = spans[i : i + 3]
+                    highlighted.append((y, col + seg_width(_html.unescape(pre[3])), _html.unescape(mid[3]), pre, mid, post))
+                    i += 3
+                else:
+                    return ("C04|html|structure|spans-do-not-match-runs", line[:300])
+                col += seg_width(t)
+            if i != len(spans):
+                return ("C04|html|structure|extra-spans", line[:300])
+        cnt("html_cursor_checks")
+        if len(highlighted) > 1:
+            return ("C04|html|cursor|more-than-one-highlighted-cell", repr(highlighted)[:400])
+        if highlighted:
+            y, x, text, pre, mid, post = highlighted[0]
+            cnt("html_cursor_highlighted")
+            if exp.cursor is None:
+                return ("C04|html|cursor|highlight-without-canvas-cursor", repr(highlighted)[:300])
+            cx, cy = exp.cursor
+            cell_x = cx - 1 if exp.cells[cy][cx][2] == 2 else cx
+            if (y, x) != (cy, cell_x):
+                return ("C04|html|cursor|highlight-at-wrong-cell", f"highlight at {(x, y)}, canvas cursor {(cx, cy)}")
+            cell_text = exp.cells[cy][cell_x][0]
+            if not (text and cell_text.startswith(text) and text[0] == cell_text[0]):
+                return ("C04|html|cursor|highlight-is-not-one-cell", f"highlighted {text!r}, cell {exp.cells[cy][cell_x][0]!r}")
+            if (mid[0], mid[1]) != (pre[1], pre[0]) or (post[0], post[1]) != (pre[0], pre[1]):
+                return ("C04|html|cursor|highlight-not-swapped-colours", repr((pre, mid, post)))
+        elif exp.cursor is not None:
+            cnt("html_cursor_not_highlighted")
+        return None
+    finally:
+        H.HtmlGenerator.fragments = saved
+        urwid.set_encoding(old)
+        urwid.CanvasCache.clear()
+
+
+def glyph_run(seg, enc):
+    _a, cs, b = seg
+    mode = enc_mode(enc)
+    return "".join(glyph_of(cb, cs, enc) for cb, _w in G.split_chars(b, mode))
+
+
+def exp_has_c0_row(exp, y):
+    return any(any(x < 0x20 or x == 0x7F for x in b) for (b, _w, _a, _cs) in exp.items[y])
+
+
+# ------------------------------------------------------------------------------------------------
+# generators
+# ------------------------------------------------------------------------------------------------
+
+ASCII = "abcdefghijklmnopqrstuvwxyzABCXYZ0123456789.,:;!?#$%*+-=/_~^|(){}[]<>&\"'"
+LATIN = "éüßñÆøÿ¿"
+DEC = "─│┌┐└┘├┤┬┴┼◆▒°±·≤≥π≠£"
+WIDE = "漢字かなＡ한中文"
+COMB = "́"
+SETTINGS = S.SETTINGS
+
+
+def gen_palette(rng, colors):
+    pal = []
+    names = []
+    n = rng.randint(2, 6)
+    for i in range(n):
+        name = f"p{i}"
+
+        def fgspec(high):
+            r = rng.random()
+            if r < 0.2:
+                c = "default"
+            elif r < 0.3:
+                c = ""
+            elif not high or r < 0.55:
+                c = rng.choice(S.BASIC)
+            elif colors == TRUE:
+                c = rng.choice(["#%06x" % rng.randrange(1 << 24), "#f0f", "#0f0", "#fff", "#000"])
+            else:
+                c = rng.choice([f"h{rng.randrange(colors if colors == 256 else 16)}", f"h{rng.randrange(16)}", "#f00", "#0ff", "#fff", "#000", "#ff0"])
+            sets = [s for s in SETTINGS if rng.random() < 0.22]
+            if c.startswith("h"):
+                # colour first: register_palette_entry only recognises an hN > 15 colour at the start of the string
+                # ('bold,h183' raises AttrSpecError at registration -- colour-spec parsing, property C18, not painting)
+                return ",".join([c, *sets])
+            parts = [c, *sets] if c or not sets else sets
+            rng.shuffle(parts)
+            return ",".join(p for p in parts) if parts != [""] else ""
+
+        def bgspec(high):
+            r = rng.random()
+            if r < 0.3:
+                return "default"
+            if r < 0.35:
+                return ""
+            if not high or r < 0.6:
+                return rng.choice(S.BASIC[:8])
+            if colors == TRUE:
+                return rng.choice(["#%06x" % rng.randrange(1 << 24), "#00f", "#fff", "#000"])
+            return rng.choice([f"h{rng.randrange(colors if colors == 256 else 16)}", f"h{8 + rng.randrange(8)}", "#00f", "#0f0", "#000"])
+
+        form = rng.choice([3, 4, 6, 6])
+        e = [name, fgspec(False), bgspec(False)]
+        if form >= 4:
+            e.append(rng.choice([None, "", "bold", "underline", "standout", "strikethrough", "bold,underline", "standout,italics", "blink"]))
+        if form == 6:
+            if colors in (88, 256, TRUE):
+                e += [rng.choice([None, fgspec(True)]), rng.choice([None, bgspec(True)])]
+            else:
+                e += [rng.choice([None, fgspec(False)]), rng.choice([None, bgspec(False)])]
+        pal.append(e)
+        names.append(name)
+        if rng.random() < 0.25:
+            pal.append([f"al{i}", rng.choice(names)])
+            names.append(f"al{i}")
+    if rng.random() < 0.06:
+        pal.append([None, rng.choice(S.BASIC), rng.choice(S.BASIC[:8])])
+    return pal, names
+
+
+def gen_spec_attr(rng):
+    d = rng.choice([1, 16, 88, 256, TRUE])
+    sets = [s for s in SETTINGS if rng.random() < 0.3]
+    if d == 1:
+        return ["spec", ",".join(sets) or "default", "default", 1]
+    if d == 16:
+        fg, bg = rng.choice(["default", *S.BASIC]), rng.choice(["default", *S.BASIC[:8]])
+    elif d == TRUE:
+        fg = rng.choice(["default", rng.choice(S.BASIC), "#%06x" % rng.randrange(1 << 24)])
+        bg = rng.choice(["default", rng.choice(S.BASIC[:8]), "#%06x" % rng.randrange(1 << 24)])
+    else:
+        fg = rng.choice(["default", rng.choice(S.BASIC), f"h{rng.randrange(d)}", "#f00", "#fff"])
+        bg = rng.choice(["default", rng.choice(S.BASIC[:8]), f"h{rng.randrange(d)}", "#00f", "#000"])
+    return ["spec", ",".join([fg, *sets]), bg, d]
+
+
+class AttrPool:
+    def __init__(self, rng, names):
+        self.rng = rng
+        self.pool = [None, None, *names, *names]
+        if rng.random() < 0.5:
+            self.pool.append(rng.choice(["nope", "undefined", 7]))
+        for _ in range(rng.randint(0, 2)):
+            self.pool.append(gen_spec_attr(rng))
+
+    def pick(self):
+        return self.rng.choice(self.pool)
+
+
+def gen_chars(rng, w, enc, allow_c0=False):
+    """list of display units (str) of total width exactly w"""
+    utf = enc_mode(enc) == "utf8"
+    out = []
+    left = w
+    style = rng.random()
+    while left > 0:
+        r = rng.random()
+        if style < 0.15:
+            ch = " " if r < 0.7 else rng.choice(ASCII)
+        elif r < 0.12:
+            ch = " "
+        elif r < 0.62:
+            ch = rng.choice(ASCII)
+        elif r < 0.70:
+            ch = rng.choice(LATIN)
+        elif r < 0.80:
+            ch = rng.choice(DEC)
+        elif r < 0.95:
+            ch = rng.choice(WIDE) if (utf and left >= 2) else (rng.choice(ASCII) if utf or r < 0.93 else rng.choice(WIDE))
+        elif utf and out and out[-1] != " " and G.char_width(out[-1][0]) == 1 and len(out[-1]) == 1:
+            out[-1] += COMB
+            continue
+        else:
+            ch = rng.choice(ASCII)
+        if not utf and G.char_width(ch) == 2:
+            # not encodable: becomes '?' (one column) in a narrow encoding
+            left -= 1
+            out.append(ch)
+            continue
+        left -= G.char_width(ch)
+        out.append(ch)
+    return out
+
+
+TAILS = ("random", "wide-last2", "wide-then-narrow", "narrow-then-wide", "wide-wide", "dec-ascii", "ascii-dec", "dec-dec", "blank-tail", "full", "blank", "comb-tail", "one-char-segs")
+
+
+def unit_w(u, enc):
+    if enc_mode(enc) != "utf8":
+        return 1
+    return G.char_width(u[0])
+
+
+def gen_row(rng, w, enc, pool: AttrPool, tail=None, c0=False):
+    """one row descriptor [[text, attr], ...] of width w"""
+    utf = enc_mode(enc) == "utf8"
+    tail = tail or rng.choice(TAILS)
+    wide = (lambda: rng.choice(WIDE)) if utf else (lambda: rng.choice(ASCII))
+    nar = lambda: rng.choice(ASCII)  # noqa: E731
+    dec = lambda: rng.choice(DEC)  # noqa: E731
+    want = {
+        "wide-last2": [wide()],
+        "wide-then-narrow": [wide(), nar()],
+        "narrow-then-wide": [nar(), wide()],
+        "wide-wide": [wide(), wide()],
+        "dec-ascii": [dec(), nar()],
+        "ascii-dec": [nar(), dec()],
+        "dec-dec": [dec(), dec()],
+        "comb-tail": [nar(), nar() + (COMB if utf else "")],
+    }.get(tail, [])
+    while want and sum(unit_w(u, enc) for u in want) > w:
+        want.pop(0)
+    tw = sum(unit_w(u, enc) for u in want)
+    if tail == "blank":
+        units = [" "] * w
+    elif tail == "blank-tail":
+        k = rng.randint(1, max(1, min(w, 4)))
+        units = [*gen_chars(rng, w - k, enc), *([" "] * k)]
+    elif tail == "full":
+        units = [nar() for _ in range(w)]
+    else:
+        units = [*gen_chars(rng, w - tw, enc), *want]
+    # attribute runs: cut points among unit boundaries, adversarial ones near the right edge
+    n = len(units)
+    cuts = set()
+    if tail == "one-char-segs":
+        cuts = set(range(1, n))
+    else:
+        for c in (n - 1, n - 2, n - 3):
+            if c > 0 and rng.random() < 0.45:
+                cuts.add(c)
+        for _ in range(rng.randint(0, 3)):
+            if n > 1:
+                cuts.add(rng.randrange(1, n))
+    if c0 and n:
+        i = rng.randrange(n)
+        units[i] = units[i] + rng.choice("\t\x01\x1b\x7f")
+    segs = []
+    start = 0
+    for c in [*sorted(cuts), n]:
+        if c > start:
+            segs.append(["".join(units[start:c]), pool.pick()])
+            start = c
+    return segs
+
+
+def gen_text_frame(rng, w, h, enc, pool, cursor_p=0.5, c0_p=0.0):
+    rows = []
+    for y in range(h):
+        last = y == h - 1
+        if last or rng.random() < 0.5:
+            rows.append(gen_row(rng, w, enc, pool, None if rng.random() < 0.8 else "random", c0=rng.random() < c0_p))
+        else:
+            rows.append(gen_row(rng, w, enc, pool, rng.choice(("random", "blank", "blank-tail"))))
+    fr = {"k": "text", "w": w, "rows": rows, "cur": None, "wrap": ["text"]}
+    if rng.random() < cursor_p:
+        fr["cur"] = [rng.randrange(w), rng.randrange(h)]
+    r = rng.random()
+    if r < 0.2:
+        fr["wrap"] = ["composite"]
+    elif r < 0.35 and w > 1:
+        fr["wrap"] = ["join", rng.randrange(1, w)]
+    elif r < 0.5 and h > 1:
+        fr["wrap"] = ["combine", rng.randrange(1, h)]
+    return fr
+
+
+def mutate_text_frame(rng, fr, enc, pool):
+    """a small change of one row (or only of the cursor) -- exercises unchanged-row skipping"""
+    new = {"k": "text", "w": fr["w"], "rows": [[list(s) for s in row] for row in fr["rows"]], "cur": fr["cur"], "wrap": fr["wrap"]}
+    w, h = fr["w"], len(fr["rows"])
+    r = rng.random()
+    y = rng.choice([h - 1, rng.randrange(h)])
+    if r < 0.15:
+        new["cur"] = None if (fr["cur"] and rng.random() < 0.4) else [rng.randrange(w), rng.randrange(h)]
+    elif r < 0.45:
+        new["rows"][y] = gen_row(rng, w, enc, pool)
+    elif r < 0.7:
+        seg = rng.choice(new["rows"][y])
+        seg[1] = pool.pick()
+    else:
+        # replace one narrow character by another narrow character
+        seg = rng.choice(new["rows"][y])
+        idx = [i for i, ch in enumerate(seg[0]) if ch in ASCII or ch == " "]
+        if idx:
+            i = rng.choice(idx)
+            seg[0] = seg[0][:i] + rng.choice(ASCII + "  ") + seg[0][i + 1 :]
+        else:
+            new["rows"][y] = gen_row(rng, w, enc, pool)
+    return new
+
+
+def gen_string(rng, enc, maxlen=14):
+    n = rng.randint(0, maxlen)
+    out = []
+    for _ in range(n):
+        r = rng.random()
+        if r < 0.15:
+            out.append(" ")
+        elif r < 0.7:
+            out.append(rng.choice(ASCII))
+        elif r < 0.8:
+            out.append(rng.choice(DEC))
+        elif r < 0.92:
+            out.append(rng.choice(WIDE))
+        else:
+            out.append(rng.choice(LATIN))
+    return "".join(out)
+
+
+def gen_markup(rng, enc, pool):
+    if rng.random() < 0.3:
+        return gen_string(rng, enc)
+    parts = []
+    for _ in range(rng.randint(1, 3)):
+        if rng.random() < 0.7:
+            parts.append(["@", [pool.pick(), gen_string(rng, enc, 8) or "x"]])
+        else:
+            parts.append(gen_string(rng, enc, 8) or "y")
+    return parts
+
+
+def gen_tree(rng, enc, pool, depth=0):
+    r = rng.random()
+    if depth >= 2 or r < 0.35:
+        if rng.random() < 0.35:
+            t = gen_string(rng, enc, 10)
+            return ["edit", gen_markup(rng, enc, pool), t, rng.randint(0, len(t))]
+        if rng.random() < 0.1:
+            return ["div", rng.choice(["-", " ", "─", "="])]
+        return ["text", gen_markup(rng, enc, pool), rng.choice(["left", "center", "right"]), rng.choice(["space", "any", "clip", "ellipsis"])]
+    if r < 0.5:
+        kids = [gen_tree(rng, enc, pool, depth + 1) for _ in range(rng.randint(1, 3))]
+        return ["pile", kids, rng.randrange(len(kids))]
+    if r < 0.65:
+        kids = [gen_tree(rng, enc, pool, depth + 1) for _ in range(rng.randint(1, 3))]
+        return ["cols", kids, rng.choice([0, 1]), rng.randrange(len(kids))]
+    if r < 0.8:
+        return ["linebox", gen_tree(rng, enc, pool, depth + 1), rng.choice(["", "", "T", "漢"])]
+    if r < 0.93:
+        return ["attrmap", gen_tree(rng, enc, pool, depth + 1), pool.pick(), pool.pick()]
+    return ["padding", gen_tree(rng, enc, pool, depth + 1), rng.choice([0, 1]), rng.choice([0, 1])]
+
+
+def gen_widget_frame(rng, w, h, enc, pool):
+    return {
+        "k": "widget",
+        "w": w,
+        "h": h,
+        "tree": gen_tree(rng, enc, pool),
+        "valign": rng.choice(["top", "top", "middle", "bottom"]),
+        "fill": rng.choice([None, None, pool.pick()]),
+    }
+
+
+def mutate_tree(rng, t, enc):
+    """change one string / edit position somewhere in the tree (in a copy)"""
+    import json
+
+    t = json.loads(json.dumps(t))
+    leaves = []
+
+    def walk(n):
+        if n[0] in ("text", "edit"):
+            leaves.append(n)
+        elif n[0] in ("pile", "cols"):
+            for c in n[1]:
+                walk(c)
+        elif n[0] in ("linebox", "attrmap", "padding"):
+            walk(n[1])
+
+    walk(t)
+    if not leaves:
+        return t
+    leaf = rng.choice(leaves)
+    if leaf[0] == "edit":
+        if rng.random() < 0.5:
+            leaf[3] = rng.randint(0, len(leaf[2]))
+        else:
+            leaf[2] = leaf[2] + rng.choice(ASCII + WIDE)
+            leaf[3] = len(leaf[2])
+    else:
+        leaf[1] = [leaf[1], rng.choice(ASCII + WIDE + DEC)] if not isinstance(leaf[1], str) else leaf[1] + rng.choice(ASCII + WIDE + DEC)
+    return t
+
+
+SIZES_W = [1, 1, 2, 2, 2, 3, 3, 4, 5, 5, 6, 7, 8, 10, 13, 16, 20, 27, 33, 40]
+SIZES_H = [1, 1, 2, 2, 3, 3, 4, 5, 6, 8, 10, 12]
+
+
+def gen_case(rng):
+    enc = rng.choice(["utf-8", "utf-8", "utf-8", "utf8", "iso8859-1", "iso8859-1", "ascii"])
+    colors = rng.choice([1, 16, 16, 88, 256, 256, TRUE])
+    cfg = {"enc": enc, "colors": colors, "bib": rng.random() < 0.5, "bce": rng.random() < 0.6, "pal_first": rng.random() < 0.5}
+    palette, names = gen_palette(rng, colors)
+    pool = AttrPool(rng, names)
+    w, h = rng.choice(SIZES_W), rng.choice(SIZES_H)
+    widgety = rng.random() < 0.22
+    ops = []
+
+    def fresh(w, h):
+        if widgety and rng.random() < 0.8:
+            return gen_widget_frame(rng, max(w, 3), h, enc, pool)
+        return gen_text_frame(rng, w, h, enc, pool, c0_p=c0_p)
+
+    c0_p = 0.5 if rng.random() < 0.04 else 0.0
+    cur = fresh(w, h)
+    ops.append(["draw", cur])
+    for _ in range(rng.randint(0, 11)):
+        r = rng.random()
+        if r < 0.55:
+            if cur["k"] == "text":
+                cur = mutate_text_frame(rng, cur, enc, pool)
+            else:
+                cur = dict(cur, tree=mutate_tree(rng, cur["tree"], enc))
+            ops.append(["draw", cur])
+        elif r < 0.68:
+            cur = fresh(*frame_size(cur))
+            ops.append(["draw", cur])
+        elif r < 0.78:
+            w, h = rng.choice(SIZES_W), rng.choice(SIZES_H)
+            cur = fresh(w, h)
+            ops.append(["draw", cur])
+        elif r < 0.86:
+            ops.append(["clear"])
+        elif r < 0.91:
+            ops.append(["winch"])
+        elif r < 0.95:
+            ops.append(["again"])
+        else:
+            ops.append(["equal"])
+    return {"cfg": cfg, "palette": palette, "ops": ops}
+
+
+# ------------------------------------------------------------------------------------------------
+# shrinking, run, replay
+# ------------------------------------------------------------------------------------------------
+
+
+def _sigs_of(ctx, case):
+    res, _ = run_raw(ctx, case, count=False)
+    return dict(res)
+
+
+def shrink_raw(ctx, case, sig, budget=140):
+    """greedy reduction of a failing history while the same signature reproduces"""
+    import json
+
+    tries = 0
+
+    def ok(c):
+        nonlocal tries
+        tries += 1
+        return tries <= budget and sig in _sigs_of(ctx, c)
+
+    cur = json.loads(json.dumps(case))
+    # 1. drop ops
+    i = len(cur["ops"]) - 1
+    while i >= 0 and tries < budget:
+        if len(cur["ops"]) > 1:
+            c = dict(cur, ops=cur["ops"][:i] + cur["ops"][i + 1 :])
+            if ok(c):
+                cur = c
+        i -= 1
+    # 2. simplify frames
+    for oi, op in enumerate(cur["ops"]):
+        if op[0] != "draw" or op[1]["k"] != "text":
+            continue
+
+        def with_frame(fr):
+            ops = list(cur["ops"])
+            ops[oi] = ["draw", fr]
+            return dict(cur, ops=ops)
+
+        fr = op[1]
+        for key, val in (("cur", None), ("wrap", ["text"])):
+            if fr.get(key) != val:
+                f2 = dict(fr, **{key: val})
+                if ok(with_frame(f2)):
+                    fr = f2
+                    cur = with_frame(fr)
+        # drop rows from the top (changes the size of this frame only if it is alone at that size)
+        y = 0
+        while len(fr["rows"]) > 1 and y < len(fr["rows"]) - 1 and tries < budget:
+            f2 = dict(fr, rows=fr["rows"][:y] + fr["rows"][y + 1 :])
+            if f2.get("cur") and f2["cur"][1] >= len(f2["rows"]):
+                f2["cur"] = None
+            if ok(with_frame(f2)):
+                fr = f2
+                cur = with_frame(fr)
+            else:
+                y += 1
+        for y in range(len(fr["rows"])):
+            blank = [[" " * fr["w"], None]]
+            if fr["rows"][y] != blank and tries < budget:
+                f2 = dict(fr, rows=[blank if j == y else r for j, r in enumerate(fr["rows"])])
+                if ok(with_frame(f2)):
+                    fr = f2
+                    cur = with_frame(fr)
+                    continue
+            row = fr["rows"][y]
+            for si in range(len(row)):
+                if row[si][1] is not None and tries < budget:
+                    r2 = [[t, (None if j == si else a)] for j, (t, a) in enumerate(row)]
+                    f2 = dict(fr, rows=[r2 if j == y else r for j, r in enumerate(fr["rows"])])
+                    if ok(with_frame(f2)):
+                        fr = f2
+                        cur = with_frame(fr)
+                        row = r2
+            # merge everything into plain x's except the tail
+            flat = "".join(t for t, _ in row)
+            if len(row) > 1 and all(a is None for _, a in row) and tries < budget:
+                f2 = dict(fr, rows=[[[flat, None]] if j == y else r for j, r in enumerate(fr["rows"])])
+                if ok(with_frame(f2)):
+                    fr = f2
+                    cur = with_frame(fr)
+    # 3. palette entries that are not needed
+    i = len(cur["palette"]) - 1
+    while i >= 0 and tries < budget:
+        c = dict(cur, palette=cur["palette"][:i] + cur["palette"][i + 1 :])
+        try:
+            if ok(c):
+                cur = c
+        except Exception:  # noqa: BLE001  (alias of a removed entry)
+            pass
+        i -= 1
+    return cur
+
+
+def case_frames(case):
+    return [op[1] for op in case["ops"] if op[0] == "draw"]
+
+
+def run_case(ctx, case, shrunk_sigs):
+    res, drawn = run_raw(ctx, case)
+    ctx.case(case, nontrivial=drawn > 0)
+    ctx.count("histories")
+    ctx.count("ops_in_histories", len(case["ops"]))
+    if not res:
+        ctx.count("histories_clean")
+    for sig, msg in res:
+        wit = {"clause": "raw", **case}
+        if shrunk_sigs.get(sig, 0) < 2 and not ctx.replaying:
+            shrunk_sigs[sig] = shrunk_sigs.get(sig, 0) + 1
+            try:
+                small = shrink_raw(ctx, case, sig)
+                r2 = _sigs_of(ctx, small)
+                if sig in r2:
+                    wit = {"clause": "raw", **small}
+                    msg = r2[sig]
+            except Exception as e:  # noqa: BLE001
+                ctx.count("shrink_errors")
+                ctx.extra.setdefault("shrink_error_example", f"{type(e).__name__}: {e}")
+        ctx.violation(sig, msg, wit)
+    return res
+
+
+def run_html_case(ctx, case, max_frames=3):
+    frames = case_frames(case)
+    for fr in frames[:1] + frames[-(max_frames - 1) :] if len(frames) > 1 else frames:
+        res = run_html(ctx, case["cfg"], case["palette"], fr)
+        ctx.count("html_evaluations")
+        if res:
+            sig, msg = res
+            wit = {"clause": "html", "cfg": case["cfg"], "palette": case["palette"], "frame": fr}
+            wit = shrink_html(ctx, wit, sig)
+            ctx.violation(sig, msg, wit)
+
+
+def shrink_html(ctx, wit, sig, budget=40):
+    fr = wit["frame"]
+    if fr["k"] != "text":
+        return wit
+    tries = 0
+
+    def ok(f2):
+        nonlocal tries
+        tries += 1
+        if tries > budget:
+            return False
+        r = run_html(ctx, wit["cfg"], wit["palette"], f2, count=False)
+        return bool(r) and r[0] == sig
+
+    y = 0
+    while len(fr["rows"]) > 1 and y < len(fr["rows"]):
+        f2 = dict(fr, rows=fr["rows"][:y] + fr["rows"][y + 1 :], wrap=["text"])
+        if f2.get("cur") and f2["cur"][1] >= len(f2["rows"]):
+            f2["cur"] = [f2["cur"][0], len(f2["rows"]) - 1]
+        if ok(f2):
+            fr = f2
+        else:
+            y += 1
+    for y in range(len(fr["rows"])):
+        row = fr["rows"][y]
+        for si in range(len(row)):
+            if row[si][1] is not None:
+                r2 = [[t, (None if j == si else a)] for j, (t, a) in enumerate(row)]
+                f2 = dict(fr, rows=[r2 if j == y else r for j, r in enumerate(fr["rows"])])
+                if ok(f2):
+                    fr = f2
+                    row = r2
+    return dict(wit, frame=fr)
+
+
+def directed_cases():
+    """the adversarial shapes named in the design, as fixed histories (every run, every shard 0)"""
+    out = []
+    for enc in ("utf-8", "iso8859-1"):
+        for bce in (True, False):
+            cfg = {"enc": enc, "colors": 16, "bib": False, "bce": bce, "pal_first": True}
+            pal = [["u", "default,underline", "default"], ["s", "default,strikethrough", "default"], ["so", "white,standout", "dark blue"], ["b", "yellow", "dark red"]]
+
+            def one(rows, w, cur=None):
+                return {"cfg": cfg, "palette": pal, "ops": [["draw", {"k": "text", "w": w, "rows": rows, "cur": cur, "wrap": ["text"]}]]}
+
+            if enc == "utf-8":
+                out.append(one([[["ab   ", None]], [["XX漢Z", None]]], 5))
+                out.append(one([[["XXXY漢", None]]], 6))
+                out.append(one([[["漢", None]]], 2))
+                out.append(one([[["a ", None]], [["漢", "b"]]], 2))
+                out.append(one([[["XX", None], ["漢", "b"], ["Z", "u"]]], 5))
+                out.append(one([[["漢字", None]]], 4, [3, 0]))
+            out.append(one([[["abc─x", None]]], 5))
+            out.append(one([[["abcx─", None]]], 5))
+            out.append(one([[["ab", None], ["─", "b"], ["x", None]]], 4))
+            out.append(one([[["ab", None], ["   ", "s"]], [["cd", None], ["   ", "s"]]], 5))
+            out.append(one([[["ab", None], ["   ", "u"]], [["cd", None], ["   ", "so"]]], 5))
+            out.append(one([[["ab", None], ["   ", "b"]], [["cd", None], ["   ", "nope"]]], 5))
+            out.append(one([[["x", None]]], 1, [0, 0]))
+    return out
+
+
+def run(ctx):
+    from urwid.display import _raw_display_base as B
+    from urwid.display import html_fragment as H
+
+    reach.watch(B.Screen.draw_screen, B.Screen._last_row, B.Screen._attrspec_to_escape, B.Screen.clear, B.Screen._setup_G1, H.HtmlGenerator.draw_screen, H.html_span)
+    shrunk: dict = {}
+    rng = ctx.rng
+    if ctx.shard == 0:
+        for case in directed_cases():
+            run_case(ctx, case, shrunk)
+            run_html_case(ctx, case)
+            ctx.count("directed_cases")
+    k = 0
+    while ctx.more(1.0):
+        k += 1
+        case = gen_case(rng)
+        run_case(ctx, case, shrunk)
+        if ctx.more(1.0):
+            run_html_case(ctx, case)
+        if k <= 2:
+            ctx.sample({"cfg": case["cfg"], "palette": case["palette"][:2], "ops": [op if op[0] != "draw" else ["draw", {**op[1], "rows": op[1].get("rows", [])[:2]}] for op in case["ops"][:3]]})
+    reach.flush(ctx)
+
+
+def replay(ctx, wit):
+    if wit.get("clause") == "html":
+        res = run_html(ctx, wit["cfg"], wit["palette"], wit["frame"])
+        ctx.case(wit)
+        if res:
+            ctx.violation(res[0], res[1], wit)
+        return res
+    case = {"cfg": wit["cfg"], "palette": wit["palette"], "ops": wit["ops"]}
+    return run_case(ctx, case, {})
